@@ -685,6 +685,7 @@ func c06ConfigUpdateAndFlapping(r *ev.Run) {
 		n := 2 + rnd.Intn(4)
 		var mu sync.Mutex
 		var seq []int
+		var probesSeen int64
 		var bes []*tcpsim.Backend
 		var hosts []sutc.Host
 		for i := 0; i < n; i++ {
@@ -694,6 +695,7 @@ func c06ConfigUpdateAndFlapping(r *ev.Run) {
 				buf := make([]byte, 4)
 				c.SetReadDeadline(time.Now().Add(5 * time.Second))
 				if _, err := io.ReadFull(c, buf); err != nil || string(buf) != "REQ!" {
+					atomic.AddInt64(&probesSeen, 1)
 					return // the listener probe of the harness
 				}
 				mu.Lock()
@@ -726,6 +728,15 @@ func c06ConfigUpdateAndFlapping(r *ev.Run) {
 			buf := make([]byte, 2)
 			_, err = io.ReadFull(c, buf)
 			return err == nil
+		}
+		// the harness's own probe of the listener takes one selection; it must be over before selections are counted
+		for i := 0; i < 300 && atomic.LoadInt64(&probesSeen) == 0; i++ {
+			time.Sleep(10 * time.Millisecond)
+		}
+		if atomic.LoadInt64(&probesSeen) == 0 {
+			r.Inconclusive("rr-config-update:probe-not-seen")
+			s.StopProc(svc.Name, 10*time.Second)
+			continue
 		}
 		before := 1 + rnd.Intn(2*n)
 		okAll := true
